@@ -381,6 +381,8 @@ def replay_rows(table_path, l, j):
         for key in ("hi", "lo", "w3", "w2", "w1", "w0", "x", "y", "z", "t"):
             if key in row:
                 r[key] = [row[key][c]]
+    if "rm" in row:
+        r["rm"] = row["rm"]        # the rounding direction the row was evaluated under
     return [h, r]
 
 
